@@ -80,6 +80,26 @@ def explore(ctx, fn, **kw):
     return res
 
 
+def deep_calls(fx, fn, depth=3, _seen=None):
+    """Call sites of fn and, transitively, of the private helpers it calls that did not exist in the reviewed tree (an
+    extracted helper belongs to its caller: a required call may have moved into it, a forbidden one may hide in it)."""
+    seen = _seen if _seen is not None else {fn.path}
+    out = list(fn.calls())
+    known = (getattr(fx, 'reviewed_fns', None) or {}).get(fn.crate)
+    if known is None or depth <= 0:
+        return out
+    for bid, c, t in list(out):
+        d = t['f'].get('def') if t['f'].get('k') == 'const' else None
+        pf = fx.crates[fn.crate].get(d) if d else None
+        if pf is None or pf.path in known or pf.path in seen or pf.macro or '{closure' in pf.path:
+            continue
+        seen.add(pf.path)
+        out += deep_calls(fx, pf, depth - 1, seen)
+        for cl in fx.find('^' + re.escape(pf.path) + r'::\{closure#\d+\}$', fn.crate):
+            out += list(cl.calls())
+    return out
+
+
 def cond_str(conds):
     return ' & '.join('%s=%s' % (sv(w), l) for w, l in conds)
 
